@@ -466,6 +466,14 @@ def _param(prog: Program, method: str, idx: int) -> str:
     return ps[idx]
 
 
+def _floor(run: Run, qual: str | None, ok: bool, msg: str) -> None:
+    """Sanity floor of a rule: fail closed when an anchor was not found -- unless the rules have already
+    reported what is wrong with that function (a floor must not hide a construct-level violation)."""
+    if ok or any(qual is None or v.function == qual for v in run.violations):
+        return
+    raise AnalysisError(msg)
+
+
 def _is_index_error(p: Path) -> bool:
     return p.exit == "raise" and p.ret is not None and "IndexError" in u(p.ret)
 
@@ -571,9 +579,8 @@ def check_valid_update(run: Run, prog: Program) -> None:
                           "update() raises although the (normalised) timestamp is not established to be older than "
                           "the oldest slot of a non-empty window: samples inside or ahead of the window are rejected",
                           node=up.node, file=up.file, path=p.describe())
-    if not {"_timestamp_newest", "_timestamp_oldest", "_buffer", "_gaps"} <= kinds:
-        raise AnalysisError(f"{up.qual}: expected writes of both time bounds, the data and the gap list, "
-                            f"found {sorted(kinds)}")
+    _floor(run, up.qual, {"_timestamp_newest", "_timestamp_oldest", "_buffer", "_gaps"} <= kinds,
+           f"{up.qual}: expected writes of both time bounds, the data and the gap list, found {sorted(kinds)}")
     run.check(bool(rejecting), "C09.VALID", up.qual, "timestamp < self._timestamp_oldest",
               "update() does not reject exactly the timestamps older than the window "
               "(strict `<` against the oldest slot): no rejection test against self._timestamp_oldest found",
@@ -737,8 +744,22 @@ def check_valid_at(run: Run, prog: Program) -> None:  # noqa: C901
                     run.check(_is_index_error(p), "C09.VALID", at.qual, f"{k} out of range: raise IndexError",
                               "a position outside the covered range is not rejected with IndexError",
                               node=at.node, file=at.file, path=p.describe())
-    if all_ok and n < 4:
-        raise AnalysisError(f"{at.qual}: only {n} rejecting paths found for the two key kinds")
+    # ... and IndexError / TypeError are raised for nothing else
+    for p in paths:
+        if p.exit != "raise" or _is_assertion(p):
+            continue
+        if _raised(p, "IndexError"):
+            ok = zero(p, f"{buf}.count_valid()") is True or any(
+                out_of_range(p, kind, k) for kind, ks in positions.items() for k in ks)
+        elif _raised(p, "TypeError"):
+            ok = truth(p, f"isinstance({key}, datetime)") is False and truth(p, f"isinstance({key}, int)") is False
+        else:
+            ok = False
+        run.check(ok, "C09.VALID", at.qual, f"raise {u(p.ret)[:50]}",
+                  "at() raises although the buffer is not established to be empty nor the key to lie outside the "
+                  "covered range (IndexError) / to be neither a datetime nor an index (TypeError): a lookup of a "
+                  "covered slot fails", node=at.node, file=at.file, path=p.describe())
+    _floor(run, at.qual, not all_ok or n >= 4, f"{at.qual}: only {n} rejecting paths found for the two key kinds")
 
 
 def _gap_args(c: ast.Call) -> dict[str, ast.AST]:
@@ -746,8 +767,8 @@ def _gap_args(c: ast.Call) -> dict[str, ast.AST]:
 
 
 def check_gaps(run: Run, prog: Program) -> None:
-    check_gap_bounds(run, prog)
     check_gap_cases(run, prog)
+    check_gap_bounds(run, prog)
     check_remove_gap(run, prog)
     check_fill_stores(run, prog)
 
@@ -784,8 +805,7 @@ def check_gap_bounds(run: Run, prog: Program) -> None:  # noqa: C901
                 run.check(bool(gaps), "C09.GAP", fn.qual, "missing sample -> gap recorded",
                           "a missing (None/NaN) sample is not recorded as a gap", node=fn.node, file=fn.file,
                           path=p.describe())
-    if len(gap_sites) < 3:
-        raise AnalysisError(f"{fn.qual}: only {len(gap_sites)} Gap constructions found")
+    _floor(run, fn.qual, len(gap_sites) >= 3, f"{fn.qual}: only {len(gap_sites)} Gap constructions found")
     run.check(missing_recorded > 0, "C09.GAP", fn.qual, "missing sample -> gap recorded",
               "a missing (None/NaN) sample is not recorded as a gap", node=fn.node, file=fn.file)
     # _fill_gaps writes only inside [0, len(data)]
@@ -1248,8 +1268,7 @@ def check_none(run: Run, prog: Program) -> None:
                 run.check(bad is None, "C09.NONE", fn.qual, f"{x} is None ... {u(bad)[:60] if bad is not None else ''}",
                           f"`{x}` was established to be None on this path and is used afterwards: the check that "
                           "should exclude the empty case is inverted, every regular call fails", **_where(fn, p))
-    if n < 3:
-        raise AnalysisError(f"C09.NONE: only {n} None-establishing paths found")
+    _floor(run, None, n >= 3, f"C09.NONE: only {n} None-establishing paths found")
 
 
 def _gap_ops(p: Path) -> dict[str, list[tuple[int, Any]]]:
@@ -1444,8 +1463,7 @@ def check_remove_gap(run: Run, prog: Program) -> None:  # noqa: C901
                   f"{[(u(_ast(a))[:40], u(_ast(b))[:40]) for a, b in pieces]} instead of the non-empty ones of "
                   f"[start, {ts}) and [{ts} + period, end): a written slot stays recorded as missing or a missing one "
                   "is reported as valid", **where)
-    if n < 4:
-        raise AnalysisError(f"{fn.qual}: only {n} paths with a gap found")
+    _floor(run, fn.qual, n >= 4, f"{fn.qual}: only {n} paths with a gap found")
 
 
 def check_fill_stores(run: Run, prog: Program) -> None:
@@ -1768,10 +1786,10 @@ def _rules_for(expect: str) -> Any:
 
 def run_rules(run: Run, prog: Program) -> None:
     check_norm(run, prog)
+    check_store(run, prog)
     check_valid(run, prog)
     check_gaps(run, prog)
     check_idx(run, prog)
-    check_store(run, prog)
     check_fetch(run, prog)
     check_count(run, prog)
     check_none(run, prog)
